@@ -49,7 +49,7 @@ COMPONENTS = {
     "real": ["ExternalOptimizer.start/_handle_request", "_PluginOptimizer.run/_request/_callback", "_JSONPipeCommunicator", "EnsembleOptimizer", "SciPy plug-in + scipy.optimize in the child (45%)", "config dump -> JSON -> re-validation"],
     "stub": ["SimKernel (FIFOs, selector, process table, signals, clock, scheduler)", "sim/scripted optimizer in the child (55%)", "SimEvaluator"],
 }
-PROBES = ["explicit_start_point", "delimiter_straddles_boundary", "kill_right_after_message", "evaluator_raised_with_dead_child", "equality_compared", "kill_child", "kill_while_parent_evaluating", "child_raises", "child_exits_nonzero", "evaluator_raises",
+PROBES = ["config_with_path_field", "explicit_start_point", "delimiter_straddles_boundary", "kill_right_after_message", "evaluator_raised_with_dead_child", "equality_compared", "kill_child", "kill_while_parent_evaluating", "child_raises", "child_exits_nonzero", "evaluator_raises",
           "evaluator_aborts", "max_functions", "stall", "spawn_fails", "small_pipe", "short_write", "large_message_runs",
           "messages_exchanged", "child_dead_checked", "real_scipy_child", "simulated_seconds"]
 REAL = ["slsqp", "l-bfgs-b", "cobyla", "nelder-mead", "differential_evolution"]
@@ -108,6 +108,10 @@ def _group_scenario(gseed: int, large: bool) -> dict:
         if backend == "scripted":
             cfg["optimizer"]["options"]["script"][0]["pts"][0] = -1
         scn["explicit_start"] = True
+    if backend == "scripted" and rng.random() < 0.2:
+        # a configuration field that is not a JSON type (a path); the directory is never written to by these runs
+        cfg["optimizer"]["output_dir"] = "/tmp/ropt-sim-output"
+        scn["with_output_dir"] = True
     scn["backend"] = backend
     scn["large"] = large
     scn["kseed"] = rng.getrandbits(32)
@@ -370,6 +374,8 @@ def execute(scn: dict) -> dict:
             probe("equality_compared")
             if scn.get("explicit_start"):
                 probe("explicit_start_point")
+            if scn.get("with_output_dir"):
+                probe("config_with_path_field")
             differs = da != db
             if differs and backend != "scripted" and ctx is not None:
                 # SciPy's algorithms are not bit-reproducible between two call contexts (BLAS results depend on
